@@ -855,6 +855,7 @@ fn parse_extra_field(file: &mut ZipFileData) -> ZipResult<()> {
                 let vendor_id = reader.read_u16::<LittleEndian>()?;
                 let aes_mode = reader.read_u8()?;
                 let compression_method = reader.read_u16::<LittleEndian>()?;
+                len_left -= 7;
 
                 if vendor_id != 0x4541 {
                     return Err(ZipError::InvalidArchive("Invalid AES vendor"));
